@@ -154,6 +154,13 @@ static Outcome run_fresh(const Plan & plan, const RunCtx & ctx, double timeout_s
   if (pid == 0) {
     close(pfd[0]);
     quiet_stdio();
+    if (!getenv("BXSIM_CHATTER")) {
+      // keep the tail of stderr of a one-shot child: a libstdc++ assertion or terminate() message
+      // is the only description of an abort()
+      std::string ep = g_san_dir + "/stderr." + std::to_string((long)getpid());
+      int efd = open(ep.c_str(), O_WRONLY | O_CREAT | O_TRUNC, 0644);
+      if (efd >= 0) { dup2(efd, 2); close(efd); }
+    }
     suite_process_init();
     Outcome o = execute(plan, ctx);
     std::string l = o.line() + "\n";
@@ -189,13 +196,31 @@ static Outcome run_fresh(const Plan & plan, const RunCtx & ctx, double timeout_s
   }
   size_t nl = buf.find('\n');
   if (nl != std::string::npos && Outcome::parse_line(buf.substr(0, nl), o)) {
-    if (WIFEXITED(st) && WEXITSTATUS(st) == 0) return o;
+    if (WIFEXITED(st) && WEXITSTATUS(st) == 0) { unlink((g_san_dir + "/stderr." + std::to_string((long)pid)).c_str()); return o; }
   }
   o = Outcome();
   o.verdict = "crash"; o.prop = ctx.prop; o.cls = "crash";
   if (WIFSIGNALED(st)) { o.sig = "signal:" + std::to_string(WTERMSIG(st)); o.detail = "child killed by signal " + std::to_string(WTERMSIG(st)); }
   else { o.sig = "exit:" + std::to_string(WEXITSTATUS(st)); o.detail = "child exited with status " + std::to_string(WEXITSTATUS(st)); }
   classify_san_log(pid, o);
+  if (o.cls == "crash") {
+    std::string et = read_file(g_san_dir + "/stderr." + std::to_string((long)pid));
+    size_t a = et.find("Assertion '");
+    if (a != std::string::npos) {
+      size_t e = et.find('\n', a);
+      std::string msg = et.substr(a, e == std::string::npos ? std::string::npos : e - a);
+      size_t fn = et.rfind('\n', a);
+      std::string where = et.substr(fn == std::string::npos ? 0 : fn + 1, a - (fn == std::string::npos ? 0 : fn + 1));
+      // "/usr/include/c++/12/bits/stl_vector.h:1123: reference std::vector<...>::operator[](size_type) ...: Assertion '__n < this->size()' failed."
+      size_t c = where.find(": ");
+      o.sig = "glibcxx-assertion:" + msg.substr(0, 80) + "@" + where.substr(0, c == std::string::npos ? 60 : c);
+      o.detail = "libstdc++ assertion: " + where + msg;
+    } else {
+      size_t t = et.find("terminate called");
+      if (t != std::string::npos) { o.sig = "terminate:" + et.substr(t, 120); for (auto & ch : o.sig) if (ch == '\n') ch = ' '; o.detail = o.sig; }
+    }
+  }
+  unlink((g_san_dir + "/stderr." + std::to_string((long)pid)).c_str());
   return o;
 }
 
